@@ -279,6 +279,21 @@ def is_g3_slot(fn, idx):
     return fn in ("nsqed", "sqed", "vqed") and (idx[0], idx[1]) in ((1, 1), (0, 2))
 
 
+def sigma_delta_variation_mismatch(r, rust_value):
+    """True iff the as^4 Sigma_Delta entry of the singlet-QED grid differs *only* because Python takes the
+    qq variation (n3lo_ad_variation[3]) and Rust the ns+ one ([4]): the variations differ and the Rust value
+    equals, at rounding level, the Python non-singlet-plus anomalous dimension with the ns+ variation."""
+    var = r["args"].get("var")
+    if not var or len(var) != 7 or var[3] == var[4]:
+        return False
+    N = complex(*r["args"]["N"])
+    try:
+        ref = E.py_ns(4, 10101, N, r["args"]["nf"], tuple(var[4:7]))[3]
+    except Exception:
+        return False
+    return abs(ref - rust_value) <= TOL * max(abs(ref), abs(rust_value))
+
+
 SENS_FACTOR = 8.0
 SENS_ULPS = 32.0  # perturbations must move intermediates like 1+(N-1)/2 by several ulps, or cancellations stay invisible
 
@@ -409,6 +424,9 @@ def run(ck):
                 continue
             case_ok = False
             k = f"C28/{fn}/{slot}"
+            if fn == "sqed" and tuple(idx) == (4, 0, 3, 3) and sigma_delta_variation_mismatch(r, rs[idx]):
+                # narrow known mechanism: which n3lo_ad_variation entry drives the Sigma_Delta element
+                k += "/qq-vs-nsp-variation"
             if k not in reported:
                 reported.add(k)
                 ck.violation(
